@@ -252,6 +252,10 @@ var _ = wire.RegisterInterface(
 )
 
 func DecodeMessage(bz []byte) (msgType byte, msg PexMessage, err error) {
+	if len(bz) == 0 {
+		err = errors.New("DecodeMessage: empty message")
+		return
+	}
 	msgType = bz[0]
 	n := new(int)
 	r := bytes.NewReader(bz)
